@@ -195,6 +195,8 @@ def oracle_geometry(case, obs):
         if any(len(g[k]) != n for k in KEYS):
             bad.append(("each_site_once", "%s geometry does not have one entry per recorded site" % name))
             return bad
+    if obs["nshanks"] != len({sites[j][0] for j in keep}):
+        bad.append(("entry_points", "_get_nshanks_from_meta is not the number of shanks with recorded sites"))
     # unsorted: entry i describes site keep[i]; the ADC of a channel is fixed by its channel number
     orig = case.get("orig_channels") or list(range(len(sites)))
     for i, j in enumerate(keep):
